@@ -398,7 +398,16 @@ def pair_family():
         meta('unique_together', [('title', 'year'), ('pages', 'year')]),
         {'t': 'RenameField', 'model': 'Book', 'old': 'rating', 'new': 'score', 'db_column': None, 'db_table': None},
     ]
-    return [(spec, [a, b]) for a in ops for b in ops if a is not b]
+    out = [(spec, [a, b]) for a in ops for b in ops if a is not b]
+    # a rename that keeps its column (no SQL of its own), followed by changes that name the field by its new name
+    keep = {'t': 'RenameField', 'model': 'Book', 'old': 'isbn', 'new': 'code', 'db_column': 'isbn', 'db_table': None}
+    cfm = lambda field, *attrs: {'t': 'ChangeField', 'model': 'Book', 'field': field, 'ftype': None, 'initial': None,
+                                 'attrs': [list(a) for a in attrs]}
+    out += [(spec, [keep, cfm('code', ('max_length', '40'))]),
+            (spec, [keep, cfm('code', ('db_index', 'true'))]),
+            (spec, [keep, meta('unique_together', [('title', 'year'), ('code', 'year')])]),
+            (spec, [keep, add('extra', 'IntegerField', '5'), cfm('code', ('max_length', '30'), ('null', 'true'))])]
+    return out
 
 
 def optimizer_rewrote(spec, muts):
